@@ -402,6 +402,7 @@ def _memento(a, url, rver, cid, ck, ninv, nres, rt, ty, has_key, real_json=False
 # decoding is a function of the document and of the CURRENT program - not of what was decoded earlier in the process
 # ------------------------------------------------------------------------------------------------
 
+EXPLICIT_VERSIONS = [None, "1", "a#b", "v::1", "x:y#z#", "#", "2024.1#3 é"]
 REDECODE_CHANGES = ["edited", "re-versioned", "removed", "appears-later", "reference-names-another-cluster"]
 
 
@@ -413,17 +414,18 @@ REDECODE_CHANGES = ["edited", "re-versioned", "removed", "appears-later", "refer
            "afterwards) and the SAME document is decoded again: each decode reflects the program as it is at that moment (bound to the "
            "live function iff name and version match, otherwise an external reference with the encoded name and version), and a "
            "re-encoding of either result is the original document",
-    variables="choice: change kind, partial bit, explicit-version bit",
+    variables="choice: change kind, partial bit, version (automatic, or one of 6 explicit free-form versions incl. '#', ':' and '::' inside)",
     budget_s={"quick": 120, "thorough": 300},
     choice_vars=3,
 )
-def redecode(change: int, partial: bool, explicit: bool):
+def redecode(change: int, partial: bool, explicit: int):
     from vp.memenv import Program, Sandbox, concrete_region
 
     change = pick(change, len(REDECODE_CHANGES))
     pt = True if partial else False
-    ex = True if explicit else False
+    explicit = pick(explicit, len(EXPLICIT_VERSIONS))
     with concrete_region():
+        ex = EXPLICIT_VERSIONS[explicit]
         name = REDECODE_CHANGES[change]
         cover(name)
         if pt:
@@ -431,7 +433,7 @@ def redecode(change: int, partial: bool, explicit: bool):
         sb = Sandbox(kinds="memory")
         prog = Program("vpc11r")
         try:
-            deco = "@m.memento_function(version='1')\n" if ex else "@m.memento_function\n"
+            deco = "@m.memento_function(version=%r)\n" % ex if ex is not None else "@m.memento_function\n"
             prog.exec(deco + "def f(x, y=0):\n    return x + 1\n")
             f0 = prog.f
             ref0 = (f0.partial(5) if pt else f0).fn_reference()
@@ -442,7 +444,8 @@ def redecode(change: int, partial: bool, explicit: bool):
                 # whatever it resolves to, its cluster is not silently replaced by the live function's
                 other = dict(doc)
                 parts = FunctionReference.parse_qualified_name(doc["qualifiedName"])
-                other["qualifiedName"] = "elsewhere::" + doc["qualifiedName"].split("::")[-1]
+                assert ref0.cluster_name is None and not doc["qualifiedName"].startswith("::")
+                other["qualifiedName"] = "elsewhere::" + doc["qualifiedName"]  # (the default cluster is written without a prefix)
                 d1 = MementoCodec.decode_fn_reference(json.loads(json.dumps(other)))
                 d2 = MementoCodec.decode_fn_reference(json.loads(json.dumps(other)))
                 for d in (d1, d2):
@@ -466,7 +469,7 @@ def redecode(change: int, partial: bool, explicit: bool):
                 check("first-decode-is-bound-to-the-live-function", (not d1.external) and d1.qualified_name == ref0.qualified_name,
                       (d1.external, d1.qualified_name))
                 if name == "edited":
-                    prog.exec(("@m.memento_function(version='2')\n" if ex else "@m.memento_function\n") + "def f(x, y=0):\n    return x + 2\n")
+                    prog.exec(("@m.memento_function(version='2')\n" if ex is not None else "@m.memento_function\n") + "def f(x, y=0):\n    return x + 2\n")
                 elif name == "re-versioned":
                     prog.exec("@m.memento_function(version='other')\ndef f(x, y=0):\n    return x + 1\n")
                 else:
